@@ -34,7 +34,20 @@ def l3(sub, step, quick, thorough, shards_thorough=16, gen=GEN_MAIN, extra=None)
     return d
 
 
+def c20_argv(tier, seed, shard, out):
+    import os
+    root = os.path.dirname(os.path.dirname(os.path.abspath(__file__)))
+    return ["python3", os.path.join(root, "lib", "c20_check.py"), "--seed", str(seed), "--tier", tier, "--shard", str(shard),
+            "--out", out, "--replays", os.path.join(root, "harness", "replays"), "--known", os.path.join(root, "known_findings.txt")]
+
+
 CHECKS = {
+    "C20": {
+        "packages": ["vchecks", "vgen"],
+        "steps": [{"argv": c20_argv, "sub": "c20", "step": "compile", "cases": {"quick": 1, "thorough": 1}, "shards": {"quick": 1, "thorough": 16}}],
+        "assumptions": ["rustc (cargo check) is the oracle; receivers cover the generator's option grammar plus hand-written templates, not all Rust programs",
+                        "field types meet the documented trait requirements by construction (FromMeta types, Default where `default` is used)"],
+    },
     "C01": {
         "packages": ["vchecks", "vgen"],
         "steps": [l3("c01", "l3", 90000, 4800000)],
